@@ -75,7 +75,7 @@ func newWorld() *world {
 	w.genesis = tmconsensus.Genesis{
 		ChainID:             "verif-chain",
 		InitialHeight:       initialH,
-		CurrentAppStateHash: []byte{0},
+		CurrentAppStateHash: []byte("app-0"),
 		ValidatorSet:        w.VS(initialH),
 	}
 	return w
@@ -83,32 +83,47 @@ func newWorld() *world {
 
 // VS is the chain-prescribed validator set for height h.
 // Heights 1 and 2 use the genesis set (a finalization of height h can only change the set of h+2);
-// from height 3 on both members and powers change every height.
+// from height 3 on order and powers change every height, and at height 5 key 2 (the engine harness's
+// own validator) is replaced by key 4. The last validator is always the Byzantine one.
 func (w *world) VS(h uint64) tmconsensus.ValidatorSet {
 	if vs, ok := w.vsets[h]; ok {
 		return vs
 	}
-	vals := make([]tmconsensus.Validator, nVals)
-	for i := 0; i < nVals; i++ {
-		ki := i
-		pow := uint64(10)
-		if h >= initialH+2 {
-			ki = (int(h) + i) % nKeysPool
-			if i == 0 {
-				pow = 10 + h%3
+	honest := []int{0, 1, 2}
+	pows := []uint64{10, 10, 10}
+	if h >= initialH+2 {
+		rot := int(h % 3)
+		honest = []int{honest[rot], honest[(rot+1)%3], honest[(rot+2)%3]}
+		pows[0] = 10 + h%3
+		if h == 5 {
+			for i, k := range honest {
+				if k == 2 {
+					honest[i] = 4
+				}
 			}
 		}
-		if i == byzIdx {
-			pow = 9
-		}
-		vals[i] = tmconsensus.Validator{PubKey: w.keys[ki].Val.PubKey, Power: pow}
 	}
+	vals := make([]tmconsensus.Validator, nVals)
+	for i, k := range honest {
+		vals[i] = tmconsensus.Validator{PubKey: w.keys[k].Val.PubKey, Power: pows[i]}
+	}
+	vals[byzIdx] = tmconsensus.Validator{PubKey: w.keys[3].Val.PubKey, Power: 9}
 	vs, err := tmconsensus.NewValidatorSet(vals, w.hs)
 	if err != nil {
 		panic(err)
 	}
 	w.vsets[h] = vs
 	return vs
+}
+
+// idxOf returns the index of key k of the pool in VS(h), or -1.
+func (w *world) idxOf(h uint64, k int) int {
+	for i, v := range w.VS(h).Validators {
+		if v.PubKey.Equal(w.keys[k].Val.PubKey) {
+			return i
+		}
+	}
+	return -1
 }
 
 func (w *world) signerFor(pk gcrypto.PubKey) gcrypto.Signer {
